@@ -30,7 +30,8 @@ def collect_units(prop):
     units = []
     for tgt, cds in dsl.CONTRACTS.items():
         for i, cd in enumerate(cds):
-            if prop in cd.props and not verify.parsed(cd).options.get('assumed'):
+            if prop in cd.props and not verify.parsed(cd).options.get('assumed') \
+                    and not verify.parsed(cd).options.get('bounded'):
                 units.append(('contract', tgt, i))
     for name, lm in dsl.LEMMAS.items():
         if prop in lm.props:
@@ -310,6 +311,30 @@ def main(argv):
                            'input': out['inputs'], 'real_result': out}, f, indent=1, default=str)
             lines.append('VIOLATION property=%s replay=%s' % (prop, fname))
             exit_code = 1
+    # declared bounded units: contracts that no obligation can decide (FFI, floats, assumed
+    # codecs); checked natively on generated inputs, reported as bounded, never as proved
+    for tgt, cds in dsl.CONTRACTS.items():
+        for cd in cds:
+            opts = verify.parsed(cd).options
+            if prop in cd.props and opts.get('bounded'):
+                nb = opts['bounded'] if tier == 'quick' else opts['bounded'] * 10
+                chains = ['mainnet', 'testnet', 'signet', 'regtest'] if opts.get('chains') else [None]
+                for ch in chains:
+                    bad, ran = bounded_standin(cd, ch, rng, nb)
+                    standin.append({'unit': '%s[%s]' % (cd.target, cd.name), 'config': ch or '', 'declared_bounded': True,
+                                    'bound': '%d generated inputs' % nb, 'evaluations': ran, 'violations': len(bad)})
+                    if ran == 0:
+                        problems.append('bounded unit %s ran no evaluation' % cd.name)
+                    for out in bad[:1]:
+                        fname = os.path.join(VERIF, 'replays', '%s_bounded_%s.json' % (
+                            prop, hashlib.sha1((cd.name + str(ch)).encode()).hexdigest()[:10]))
+                        with open(fname, 'w') as f:
+                            json.dump({'property': prop, 'unit': '%s[%s]' % (cd.target, cd.name), 'config': ch,
+                                       'obligation': 'bounded check of a declared-bounded contract',
+                                       'input': out['inputs'], 'real_result': out}, f, indent=1, default=str)
+                        lines.append('VIOLATION property=%s replay=%s' % (prop, fname))
+                        print('  bounded unit %s: %s' % (cd.name, out.get('detail')))
+                        exit_code = 1
     # known findings
     for k in kf:
         if k.get('status') != 'known':
